@@ -1,9 +1,89 @@
 import Driver.Codec
-/-! Protocol ops of the `Import` cluster: decode, call the model, print. -/
+import XdocModel.Import
+/-!
+Protocol ops of the `Import` cluster: decode, call the model, print.
+
+A path travels as the encoded string of its absolute normal form (`/a/b/c`, the root is `/`); a
+list of paths is `;`-joined (`~` = empty), search path entries are `|`-joined. A dotted module
+name travels as its encoded string and is split on `.` here.
+
+`imp <files> <dirs> <query> <query> …` answers all queries on the file system given by the two
+listings, TAB-joined. A query is `:`-separated:
+
+* `R:<hideInit><hideMain>:<entries>:<name>`  → `modname_to_modpath`: `none` / `some <path>`
+* `I:<entries>:<name>`                       → `is_modname_importable`: `0` / `1`
+* `P:<entry>:<name>`                         → spec `pyResolve`: `none` / `pkg <path>` / `mod <path>`
+* `Q:<entries>:<name>`                       → spec `pyResolvePath`
+* `N:<hideInit><hideMain>:<path>`            → `normalize_modpath`
+* `S:<check>:<path>`                         → `split_modpath`: `ok <dir> <rel>` / `err <kind>`
+* `M:<hideInit><hideMain><check>:<path>`     → `modpath_to_modname`: `ok <name>` / `err <kind>`
+* `L:<hideInit><hideMain>:<path>:<relto>`    → `modpath_to_modname(…, relativeto=relto)`
+* `V:<base>:<path below base>`               → `_isvalid` as (structural, literal walk): `1 some 1`
+
+`imp_rel2name <string>` → the string pipeline of `modpath_to_modname` on a raw relative path.
+-/
 namespace Xdoc.Driver
-open Xdoc
+open Xdoc Py Import
+
+def decPath (f : String) : Path := (Py.splitOn '/' (decStr f)).filter (fun c => !c.isEmpty)
+
+def decPaths (f : String) : List Path := if f == "~" then [] else (f.splitOn ";").map decPath
+
+def decEntries (f : String) : List Path := if f == "~" then [] else (f.splitOn "|").map decPath
+
+def decName (f : String) : List Comp := Py.splitOn '.' (decStr f)
+
+def encPath (p : Path) : String := encStr ('/' :: joinSlash p)
+
+def encRel (p : List Comp) : String := encStr (joinSlash p)
+
+def encErr : ImpErr → String
+  | .doesNotExist => "err doesNotExist"
+  | .notAModule => "err notAModule"
+  | .rootLoop => "err rootLoop"
+
+def encFound : Option Found → String
+  | none => "none"
+  | some (.pkg d) => "pkg " ++ encPath d
+  | some (.mod f) => "mod " ++ encPath f
+
+private def bit (s : String) (i : Nat) : Bool := (s.toList.getD i '0') == '1'
+
+def impQuery (fs : FS) (q : String) : String :=
+  match q.splitOn ":" with
+  | ["R", fl, entries, name] =>
+    match modnameToModpath fs (decEntries entries) (decName name) (bit fl 0) (bit fl 1) with
+    | none => "none"
+    | some p => "some " ++ encPath p
+  | ["I", entries, name] => encBool (isImportable fs (decEntries entries) (decName name))
+  | ["P", entry, name] => encFound (pyResolve fs (decPath entry) (decName name))
+  | ["Q", entries, name] => encFound (pyResolvePath fs (decEntries entries) (decName name))
+  | ["N", fl, path] => encPath (normalizeModpath fs (decPath path) (bit fl 0) (bit fl 1))
+  | ["S", fl, path] =>
+    match splitModpath fs (decPath path) (bit fl 0) with
+    | .ok (d, rel) => "ok " ++ encPath d ++ " " ++ encRel rel
+    | .error e => encErr e
+  | ["M", fl, path] =>
+    match modpathToModname fs (decPath path) (bit fl 0) (bit fl 1) (bit fl 2) with
+    | .ok n => "ok " ++ encStr n
+    | .error e => encErr e
+  | ["L", fl, path, relto] =>
+    encStr (modpathToModnameRel fs (decPath path) (decPath relto) (bit fl 0) (bit fl 1))
+  | ["V", base, path] =>
+    let b := decPath base
+    let p := decPath path
+    let rel := p.drop b.length
+    encBool (isValid fs b rel) ++ " " ++
+      (match isValidWalk fs b (b ++ rel.dropLast).reverse with
+       | none => "none"
+       | some v => "some " ++ encBool v)
+  | _ => "bad-query"
 
 def opsImport : List String → Option String
+  | "imp" :: files :: dirs :: queries =>
+    let fs := FS.ofLists (decPaths files) (decPaths dirs)
+    some ("\t".intercalate (queries.map (impQuery fs)))
+  | ["imp_rel2name", s] => some (encStr (relToModname (decStr s)))
   | _ => none
 
 end Xdoc.Driver
